@@ -217,6 +217,39 @@ func c20Check(cs c20Case) [][2]string {
 			out = append(out, why)
 		}
 	}
+	// the HTML rendering of the spec: total, one row per node, one numbered row per branch, one link per non-empty target
+	if !strings.ContainsAny(strings.Join(nodeNames(spec), ""), "<>&\"'") {
+		var buf bytes.Buffer
+		var herr error
+		if p, pm, where := vh.Trap(func() { herr = tools.RenderSpecHTML(spec, &buf) }); p {
+			out = append(out, [2]string{"html-panic/" + where, pm})
+		} else if herr != nil {
+			out = append(out, [2]string{"html-error", herr.Error()})
+		} else {
+			h := buf.String()
+			if n := strings.Count(h, `<tr class="node">`); n != len(spec.Nodes) {
+				out = append(out, [2]string{"html-node-rows", fmt.Sprintf("%d node rows for %d nodes", n, len(spec.Nodes))})
+			}
+			for name := range spec.Nodes {
+				if n := strings.Count(h, fmt.Sprintf(`<span id="%s" class="nodeName">%s</span>`, name, name)); n != 1 {
+					out = append(out, [2]string{"html-node-rows", fmt.Sprintf("node %q has %d rows", name, n)})
+					break
+				}
+			}
+			if n := strings.Count(h, `class="branchNum"`); n != branches {
+				out = append(out, [2]string{"html-branch-rows", fmt.Sprintf("%d branch rows for %d branches", n, branches)})
+			}
+			links := 0
+			for _, b := range branchList {
+				if b[1] != "" {
+					links++
+				}
+			}
+			if n := strings.Count(h, `<a href="#`); n != links {
+				out = append(out, [2]string{"html-target-links", fmt.Sprintf("%d target links for %d branches with a target", n, links)})
+			}
+		}
+	}
 	// Mermaid
 	{
 		var buf bytes.Buffer
@@ -230,6 +263,19 @@ func c20Check(cs c20Case) [][2]string {
 		}
 	}
 	return out
+}
+
+func nodeNames(spec *core.Spec) []string {
+	var ns []string
+	for n, node := range spec.Nodes {
+		ns = append(ns, n)
+		if node.Branches != nil {
+			for _, b := range node.Branches.Branches {
+				ns = append(ns, b.Target)
+			}
+		}
+	}
+	return ns
 }
 
 func c20Feature(cs c20Case) string {
@@ -291,7 +337,7 @@ func C20(c *vh.Ctx) {
 		}
 		return
 	}
-	c.Rule("every spec graph over node names {start, a, b}: (i) two nodes, each with action {none, native, ecmascript source, goja source}, branching type {message (no action), bindings}, and a branch list of 0-2 branches over target {start, a, b, missing, @v, \"\"} x guard {none, ecmascript source} (plus native / goja guards) x pattern {none, map}; (ii) three nodes with 0-1 branches each; (iii) a fixed three-node graph whose two free node names range over a list of 30 names (dot keywords, names with spaces, colons, quotes, angle brackets, ampersands, brackets, comment openers, backslashes, format verbs) and whose patterns range over 9 JSON contents (angle brackets, ampersands, quotes, markup, a bare string, arrays, one long enough to be indented); branch lists also as empty-but-not-nil lists; (iv) three-node graphs without any node called start, over names that sort before and after \"start\"; compiled; oracle: Analyze's sets and counts recomputed from the graph, Dot output parsed with the grammar of the dot language (quoted and HTML-like strings, keywords, ports) and matched to the spec graph under a searched correspondence of names (each spec node exactly one node statement whose well-formed label shows its name, extra nodes only as placeholders for branch targets, edge multiset = image of the branch multiset); Mermaid output split into statements and read back (node texts with entities decoded = names, edges through node ids = branches), no panic, no error. non-trivial = more than one node.")
+	c.Rule("every spec graph over node names {start, a, b}: (i) two nodes, each with action {none, native, ecmascript source, goja source}, branching type {message (no action), bindings}, and a branch list of 0-2 branches over target {start, a, b, missing, @v, \"\"} x guard {none, ecmascript source} (plus native / goja guards) x pattern {none, map}; (ii) three nodes with 0-1 branches each; (iii) a fixed three-node graph whose two free node names range over a list of 30 names (dot keywords, names with spaces, colons, quotes, angle brackets, ampersands, brackets, comment openers, backslashes, format verbs) and whose patterns range over 9 JSON contents (angle brackets, ampersands, quotes, markup, a bare string, arrays, one long enough to be indented); branch lists also as empty-but-not-nil lists; (iv) three-node graphs without any node called start, over names that sort before and after \"start\"; compiled; oracle: Analyze's sets and counts recomputed from the graph, Dot output parsed with the grammar of the dot language (quoted and HTML-like strings, keywords, ports) and matched to the spec graph under a searched correspondence of names (each spec node exactly one node statement whose well-formed label shows its name, extra nodes only as placeholders for branch targets, edge multiset = image of the branch multiset); Mermaid output split into statements and read back (node texts with entities decoded = names, edges through node ids = branches), the HTML rendering (RenderSpecHTML; names without markup characters) has one row per node, one numbered row per branch and one link per branch with a target; no panic, no error. non-trivial = more than one node.")
 	targets := []string{"start", "a", "b", "missing", "@v", ""}
 	var kinds []gBranch
 	for _, t := range targets {
